@@ -32,6 +32,10 @@ let () =
           (match get_le w (bytes_of_hex buf) with
            | None -> Some "model refuses"
            | Some v -> if decimal_of_z v = res then None else Some ("model: " ^ decimal_of_z v))
+        | "conc", [_; _; lost] ->
+          (* puts of adjacent fields from several goroutines: by the frame theorem (C15_put_frame)
+             a put changes its own frame only, so no round may lose a field *)
+          if lost = "lost=0" then None else Some "a put changed bytes outside its frame (a concurrent put of the neighbouring field was lost)"
         | _ -> Some "unparsable line"
       in
       match expect with
